@@ -588,8 +588,43 @@ GridCharacterisation ==
     => (valid <=> (R(sch)!Ordered /\ R(sch)!NoOverlap /\ R(sch)!MembersInsideBlock))
 BlockBreakEscapes == (meta.kind = "break" /\ meta.rule = "R_BlockLength") => ~R(sch)!MembersInsideBlock
 
+----------------------------------------------------------------------------
+(* the same schema distributed over files (Files.tla): for the states whose  *)
+(* rule talks about names and references across the whole schema            *)
+F == INSTANCE Files
+SplitRules == {"R_Unique.type", "R_Unique.message", "R_RefExists", "R_NoCycle",
+               "R_RefKind.enc", "R_RefKind.data", "R_RefKind.dim", "R_RefKind.header", "R_RefKind.valueRef"}
+HasPlans == "files" \in Groups /\ Len(sch.types) >= 2 /\ meta.kind \in {"base", "break", "boundary"}
+            /\ (meta.kind = "base" \/ meta.rule \in SplitRules)
+MinOf(set) == CHOOSE x \in set : \A y \in set : x <= y
+\* cut the type list between the first two colliding names, if any (else in the middle)
+TypeCut(s) ==
+  LET n == Len(s.types)
+      low == [i \in 1 .. n |-> B!Lower(s.types[i].name)]
+      col == {i \in 1 .. n : \E j \in (i + 1) .. n : low[i] = low[j]}
+  IN IF col # {} THEN MinOf(col) ELSE n \div 2
+MsgCut(s) ==
+  LET n == Len(s.messages)
+      col == {i \in 1 .. n : \E j \in (i + 1) .. n : s.messages[i].name = s.messages[j].name \/ s.messages[i].id = s.messages[j].id}
+  IN IF col # {} THEN MinOf(col) ELSE n \div 2
+PlansOf(s) == F!Plans(Len(s.types), Len(s.messages), TypeCut(s), MsgCut(s))
+\* (bound through a singleton set: TLC evaluates the plans once per state)
+PlansWellFormed ==
+  HasPlans => \A ps \in {PlansOf(sch)} : \A i \in 1 .. Len(ps) :
+                F!WellFormed(ps[i].tree, Len(sch.types), Len(sch.messages))
+\* the rule set does not see the distribution: the merged schema of every plan is valid iff this one is, and
+\* breaks exactly the same rules (while type names are unique: a reference to a name that exists twice has
+\* no single meaning, so which further rules such a schema breaks is not a function of the schema)
+SplitKeepsVerdict ==
+  HasPlans => \A ps \in {PlansOf(sch)} : \A i \in 1 .. Len(ps) :
+                \A b2 \in {R(F!Merged(sch, ps[i].tree))!Broken} :
+                  /\ (b2 = {}) = valid
+                  /\ ("R_Unique.type" \in b2) = ("R_Unique.type" \in broken)
+                  /\ "R_Unique.type" \notin broken => b2 = broken
+
 Emit == meta.kind = "dispatch" \/ PrintT(ToJson([kind |-> meta.kind, rule |-> meta.rule, pos |-> meta.pos, variant |-> meta.variant,
                        edits |-> meta.edits, also |-> meta.also, exact |-> meta.exact,
                        verdict |-> IF meta.kind = "probe" THEN "unspecified" ELSE IF valid THEN "accept" ELSE "reject",
-                       broken |-> broken, schema |-> sch]))
+                       broken |-> broken, schema |-> sch,
+                       plans |-> IF HasPlans THEN PlansOf(sch) ELSE <<>>]))
 =============================================================================
